@@ -25,6 +25,10 @@ CHECKS = {
    text="TLC checks Push (addressed / broadcast / filtered sends; server-issued requests with their pending entries matched on (session, id)) and finds the wrong-session answer when entries are matched on the id alone; every edge of the state graph - including answers posted by the wrong session, repeated answers and cancellation - is executed on a real Streamable-HTTP and a real legacy SSE server with one recording raw peer per session; return values, the streams each nonce-tagged frame appeared on, the accepted answer and the pending-table size are compared with the edge labels; step logs are validated by TLC against TracePush.",
    note="Trusted: TLC, the raw peers, the read-only VerifPendingServerRequests export. stdio has one session (isolation vacuous) and is not walked. The 30 s timer is replaced by cancelling the caller's context. Payload sizes are small in this check (large frames are covered by C09).",
    technique="TLA+ model checking (TLC) + edge-cover walk on real servers + TLC trace validation"),
+ "C17": dict(level="model_checking", design="DESIGN.md §5 C17",
+   text="TLC checks Retry (attempt loop, classification, back-off sequence, cancellation at every instant, liveness) for MaxRetries 0..3 and without a retry option, and RetryClamp over the boundary grid (range, idempotence, valid points untouched); every leaf of the Retry state graph (outcome sequence x cancel instant) is replayed through the real retry loop with the error texts the real Streamable and legacy SSE clients produce for each outcome kind (learned end to end from a scripted server/dialer); a sample runs end to end through the real clients; the clamp grid is compared with the real Validate() and the installed client configuration; run logs are validated by TLC against TraceRetry with silent loop steps.",
+   note="Trusted: TLC, the scripted server/dialer, wall-clock LOWER bounds on waits (upper bounds generous: cap + 250 ms, prompt cancel < 200 ms against a 600 ms wait). Outcome alphabet: success, JSON-RPC error, 6 non-transient 4xx, 408/409/429, 6 5xx, refused, reset, read timeout, EOF, two non-network errors. http.Client.Timeout-style errors are outside the alphabet.",
+   technique="TLA+ model checking (TLC) + replay of all model leaves into the real retry loop + end-to-end scripted-fault runs + TLC trace validation"),
 }
 NA = {
  "C20": "data-race freedom is a statement about individual memory accesses under the Go memory model; an abstract state-machine specification has no notion of them (see DESIGN.md §6)",
